@@ -2,6 +2,7 @@
   C02 — battles are scheduled and decided by the standard rules (property theorems).
 -/
 import Gmars.Proofs.Queue
+import Gmars.Proofs.Sched
 
 namespace Gmars.Props.C02
 open Gmars Gmars.Spec
@@ -59,6 +60,41 @@ theorem queue_values_wraps_above_2_63 :
     PQ.wrapExample.Inv ∧ 2 ^ 63 < PQ.wrapExample.size.toNat ∧
     PQ.wrapExample.values ≠ .ok PQ.wrapExample.toList :=
   ⟨PQ.values_wraps_above_2_63.1, PQ.values_wraps_above_2_63.2.1, PQ.values_wraps_above_2_63.2.2.2.2⟩
+
+/-- `runCycle_refines` — one `RunCycle` of the model of sim.go is one cycle of the reference
+    scheduler `Spec.Api.cycle`: every living warrior, in loading order, executes exactly one task
+    taken from the front of its own FIFO queue (through `Spec.step`), a warrior dies exactly when its
+    queue becomes empty, the cycle stops early when a single survivor remains among several, the
+    completed-cycle count and the returned living count agree — for every state satisfying the
+    invariant (M ≤ 2^32, limits ≤ M) and every reference state related to it by `Rel` (same
+    configuration, core, counters, warrior states and queues). -/
+theorem runCycle_refines {s : Sim} {a : Api} (hwf : s.WF) (hm : s.m.toNat ≤ 2 ^ 32)
+    (hr : s.readLimit.toNat ≤ s.m.toNat) (hw : s.writeLimit.toNat ≤ s.m.toNat) (hrel : Rel s a) :
+    ∃ s' n, s.runCycle = .ok (s', n) ∧ Rel s' a.cycle.1 ∧ n = Int.ofNat a.cycle.2.2 ∧ s'.WF :=
+  Gmars.runCycle_refines hwf hm hr hw hrel
+
+/-- the `WarriorTaskPop` reports of a cycle list exactly the (warrior, pc) pairs the reference
+    scheduler executes, in the same order -/
+theorem runCycle_trace {s : Sim} {a : Api} (hwf : s.WF) (hm : s.m.toNat ≤ 2 ^ 32)
+    (hr : s.readLimit.toNat ≤ s.m.toNat) (hw : s.writeLimit.toNat ≤ s.m.toNat) (hrel : Rel s a) :
+    ∃ s' n new, s.runCycle = .ok (s', n) ∧ s'.log.toList = s.log.toList ++ new ∧
+      pops new = execs a.cycle.2.1 :=
+  Gmars.runCycle_trace hwf hm hr hw hrel
+
+/-- `run_result` — `Run()` always returns, ends in the final state of the reference battle
+    (iterated reference cycles until a lone warrior died, a single survivor remains among several,
+    or the cycle limit is reached) and reports exactly its survivors -/
+theorem run_refines {s : Sim} {a : Api} (hwf : s.WF) (hm : s.m.toNat ≤ 2 ^ 32)
+    (hr : s.readLimit.toNat ≤ s.m.toNat) (hw : s.writeLimit.toNat ≤ s.m.toNat) (hrel : Rel s a) :
+    ∃ s', s.runLoop (s.maxCycles.toNat + 2) = .ok (s', true) ∧ Rel s' (a.run (a.C + 2)).1 ∧
+      s'.results = (a.run (a.C + 2)).1.ws.map (fun w => w.st == .alive) :=
+  Gmars.run_refines hwf hm hr hw hrel
+
+/-- `run_eq_iterate` — one run-to-completion call is the cycle-by-cycle loop -/
+theorem run_eq_iterate {s : Sim} {a : Api} (hwf : s.WF) (hm : s.m.toNat ≤ 2 ^ 32)
+    (hr : s.readLimit.toNat ≤ s.m.toNat) (hw : s.writeLimit.toNat ≤ s.m.toNat) (hrel : Rel s a) :
+    s.runLoop (s.maxCycles.toNat + 2) = s.iterCycles (s.maxCycles.toNat + 2) :=
+  Gmars.run_eq_iterate hwf hm hr hw hrel
 
 example : enqueue 3 [7] [8, 9] = [7, 8, 9] ∧ enqueue 2 [7] [8, 9] = [7, 8] ∧ enqueue 1 [7] [8, 9] = [7] := by decide
 
